@@ -1,5 +1,6 @@
 import GBS.Model.Parse
 import GBS.Lemmas.Lossless
+import GBS.Lemmas.Numbering
 /-!
 # C02 — parsing recovers the structure the notation denotes
 
@@ -328,6 +329,16 @@ theorem C02_print_is_raw_with_canonical_descriptors (t : PToken) (ext : Bool) :
   | bond k =>
     simp only [elText, elRaw, List.getD_eq_getElem?_getD, List.getElem?_map]
     cases t.descs[k]? <;> rfl
+
+/-- **C02 (descriptor numbering; transition lists address positions)**: in every accepted stochastic object the k-th descriptor, in the
+order "repeat units in written order, then end groups in written order", carries the number k (`descriptor_num`), and every
+transition list — on a repeat-unit or end-group descriptor or on a terminal — has exactly one entry per such descriptor: entry j of a
+list addresses the descriptor written at position j.  (Tokens number their descriptors in written order from their offset:
+`parseToken_nums`; groups consecutively: `parseGroup_spec`.) -/
+theorem C02_descriptor_numbering {valid : Str → Bool} {text : Str} {rp : Nat} {o : PStoch} (h : parseStoch valid text rp = .ok o) :
+    (∀ (k : Nat) (d : PDesc), o.allDescs[k]? = some d → d.num = k) ∧
+    (∀ d ∈ o.allDescs ++ [o.left, o.right], ∀ l, d.d.trans = some l → l.length = o.allDescs.length) :=
+  parseStoch_nums h
 
 -- non-vacuity: `[<]CC(C)([>])C` passes both loops: 2 descriptors, 4 atoms, the second descriptor bound to atom 1
 -- (`scan` is compiled by well-founded recursion and does not reduce in the kernel: its run is shown by rewriting)
